@@ -245,7 +245,7 @@ func main() {
 			die(2, "%v", err)
 		}
 		os.RemoveAll(b.tmp)
-		fmt.Printf("warm: instrumented %d files (%d go, %d send, %d recv, %d select, %d map-range)\n", b.stats.Files, b.stats.GoStmts, b.stats.Sends, b.stats.Recvs, b.stats.Selects, b.stats.MapRanges)
+		fmt.Printf("warm: instrumented %d files (%d go, %d send, %d recv, %d select, %d map-range, %d ctx.Err, %d cancel calls)\n", b.stats.Files, b.stats.GoStmts, b.stats.Sends, b.stats.Recvs, b.stats.Selects, b.stats.MapRanges, b.stats.CtxErrs, b.stats.CtxCancels)
 	default:
 		die(2, "unknown command %s", os.Args[1])
 	}
